@@ -72,26 +72,47 @@ AUTHZ = {
 }
 
 
-def _cached_keyjar(name, keydefs, issuer_id=""):
-    """A key jar whose private keys are generated once and kept in build/C12/keys/<name>.json."""
+def _cached_jwks(name):
+    """Private JWKS generated once and kept in build/C12/keys/<name>.json.
+
+    Two adjustments are part of the VALIDATED configuration (cryptojwt 1.11 key selection, trusted base):
+      * pick_key looks for curve "P-512" when asked for ES512, so the P-521 key carries "alg": "ES512";
+      * pick_key takes the first OKP key for Ed448 / Ed25519 / EdDSA alike, so the Ed448 key carries
+        "alg": "Ed448" and is listed before the (unannotated) Ed25519 key.
+    """
     path = os.path.join(KEYDIR, name + ".json")
-    return init_key_jar(private_path=path, key_defs=keydefs, issuer_id=issuer_id, read_only=False)
+    kj = init_key_jar(private_path=path, key_defs=SIG_KEYDEFS + ENC_KEYDEFS, issuer_id="", read_only=False)
+    keys = kj.export_jwks(private=True)["keys"]
+    for k in keys:
+        if k.get("kty") == "EC" and k.get("crv") == "P-521" and k.get("use") == "sig":
+            k["alg"] = "ES512"
+        if k.get("kty") == "OKP" and k.get("crv") == "Ed448":
+            k["alg"] = "Ed448"
+    keys.sort(key=lambda k: 0 if k.get("alg") == "Ed448" else 1)      # stable: Ed448 first
+    return {"keys": keys}
+
+
+def _public(jwks):
+    pub = []
+    for k in jwks["keys"]:
+        pub.append({a: v for a, v in k.items() if a not in ("d", "p", "q", "dp", "dq", "qi", "k")})
+    return {"keys": pub}
 
 
 _KEYS = {}
+EXTRA_OP = {}     # experiments only: additional root configuration of the provider
 
 
 def op_jwks():
     if "op" not in _KEYS:
-        kj = _cached_keyjar("op", SIG_KEYDEFS + ENC_KEYDEFS)
-        _KEYS["op"] = kj.export_jwks(private=True)
+        _KEYS["op"] = _cached_jwks("op")
     return _KEYS["op"]
 
 
 def rp_jwks():
     if "rp" not in _KEYS:
-        kj = _cached_keyjar("rp", SIG_KEYDEFS + ENC_KEYDEFS)
-        _KEYS["rp"] = (kj.export_jwks(private=True), kj.export_jwks(private=False))
+        priv = _cached_jwks("rp")
+        _KEYS["rp"] = (priv, _public(priv))
     return _KEYS["rp"]
 
 
@@ -159,8 +180,7 @@ class Pair:
                                "kwargs": {"essential": True}}
         extra = {
             "issuer": ISS,
-            "keys": {"uri_path": "jwks.json", "key_defs": SIG_KEYDEFS + ENC_KEYDEFS,
-                     "private_path": os.path.join(KEYDIR, "op.json"), "read_only": False},
+            "keys": {"uri_path": "jwks.json"},
             # stated explicitly: the merged endpoint `_supports` is last-endpoint-wins, and the pushed
             # authorization endpoint (configured after the OIDC authorization endpoint) says ["code"]
             "response_types_supported": ["code", "id_token", "code id_token"],
@@ -168,12 +188,15 @@ class Pair:
             "encrypt_id_token_supported": True,
             "encrypt_userinfo_supported": True,
         }
+        extra.update(EXTRA_OP)
         conf = srv.op_conf(jwt_access=c["at_jwt"], jwt_refresh=c["rf_jwt"], oidc=True, authz=AUTHZ,
                            add_ons=add_ons or None, extra=extra,
                            endpoints={"introspection": {"client_authn_method": [
                                "client_secret_post", "client_secret_basic", "client_secret_jwt", "private_key_jwt"]}})
-        op_jwks()   # make sure the key file exists before the server reads it
-        self.server = Server(OPConfiguration(conf=conf, base_path=RUNDIR), cwd=RUNDIR)
+        okj = KeyJar()
+        okj.import_jwks(op_jwks(), "")
+        okj.import_jwks(op_jwks(), ISS)
+        self.server = Server(OPConfiguration(conf=conf, base_path=RUNDIR), cwd=RUNDIR, keyjar=okj)
         self.ctx = self.server.context
         self.ctx.httpc = self.httpc
         self.ep = {k: self.server.get_endpoint(k) for k in
@@ -221,7 +244,7 @@ class Pair:
             "services": services,
             "client_authn_methods": ["client_secret_basic", "client_secret_post", "client_secret_jwt",
                                      "private_key_jwt", "bearer_header", "bearer_body"],
-            "response_types_supported": [c["rt"]],
+            "response_types_supported": c.get("rp_rts") or [c["rt"]],
             "response_modes_supported": ["query", "fragment", "form_post"],
             "token_endpoint_auth_methods_supported": [c["auth"]],
             "id_token_signing_alg_values_supported": [c["idt_sig"]],
@@ -245,10 +268,8 @@ class Pair:
             conf["userinfo_encryption_enc_values_supported"] = [c["ui_enc"][1]]
         if c["transport"] == "request":
             conf["request_parameter_supported"] = True
-            conf["request_parameter"] = "request"
         elif c["transport"] == "request_uri":
             conf["request_uri_parameter_supported"] = True
-            conf["request_parameter"] = "request_uri"
         if add_ons:
             conf["add_ons"] = add_ons
         self.rp_conf = conf
@@ -257,36 +278,33 @@ class Pair:
 
     # ------------------------------------------------------------------ static registration at the OP
     def register_static(self):
-        """the provider-side client record for this cell, built from what the RP instance says about itself"""
-        c = self.cell
+        """Static registration: the provider-side client record is what THIS relying-party instance says it
+        uses after discovery (`claims.use`, i.e. what it would have sent in a registration request) - the
+        harness adds nothing of its own except the secret, the salt and the allowed scopes."""
         rctx = self.rp.get_context()
-        cb = rctx.get_preference("callback_uris") or {}
-        uris = []
-        for us in (cb.get("redirect_uris") or {}).values():
-            for u in us:
-                if u not in uris:
-                    uris.append(u)
+        use = rctx.claims.use
         rec = {
             "client_id": CLIENT_ID,
             "client_secret": SECRET,
             "client_salt": "salted",
-            "redirect_uris": [(u, None) for u in uris],
-            "token_endpoint_auth_method": c["auth"],
-            "response_types_supported": [c["rt"]],
+            "redirect_uris": [(u, None) for u in (use.get("redirect_uris") or [])],
             "allowed_scopes": ["openid", "profile", "email", "address", "phone", "offline_access"],
-            "id_token_signed_response_alg": c["idt_sig"],
         }
-        if c["idt_enc"]:
-            rec["id_token_encrypted_response_alg"], rec["id_token_encrypted_response_enc"] = c["idt_enc"]
-        if c["ui_sig"]:
-            rec["userinfo_signed_response_alg"] = c["ui_sig"]
-        if c["ui_enc"]:
-            rec["userinfo_encrypted_response_alg"], rec["userinfo_encrypted_response_enc"] = c["ui_enc"]
-        if c["transport"] in ("request", "request_uri", "par"):
-            rec["request_object_signing_alg"] = "RS256"
+        for k in ("token_endpoint_auth_method", "token_endpoint_auth_signing_alg",
+                  "id_token_signed_response_alg", "id_token_encrypted_response_alg", "id_token_encrypted_response_enc",
+                  "userinfo_signed_response_alg", "userinfo_encrypted_response_alg", "userinfo_encrypted_response_enc",
+                  "request_object_signing_alg", "subject_type", "grant_types", "application_type"):
+            if use.get(k):
+                rec[k] = use[k]
+        if use.get("response_types"):
+            # the authorization endpoint reads the registered response types under this name
+            rec["response_types_supported"] = list(use["response_types"])
+        if use.get("request_uris"):
+            rec["request_uris"] = [(u, None) for u in use["request_uris"]]
         self.ctx.cdb[CLIENT_ID] = rec
         self.server.keyjar.add_symmetric(CLIENT_ID, SECRET)
         self.server.keyjar.import_jwks(self.rp_pub_jwks, CLIENT_ID)
+        self.rp_use = {k: v for k, v in use.items() if k not in ("client_secret", "jwks")}
         return rec
 
     # ------------------------------------------------------------------ HTTP dispatcher
@@ -331,6 +349,10 @@ class Pair:
                 body = r.to_json() if hasattr(r, "to_json") else json.dumps(r)
                 self.log.append((name, 400, "process: %s" % body))
                 return Resp(400, body, "application/json", url)
+            if isinstance(r, dict) and "http_response" in r:
+                # the pushed-authorization endpoint hands the HTTP layer a ready-made JSON body
+                self.log.append((name, 200, ""))
+                return Resp(200, json.dumps(r["http_response"]), "application/json", url)
             if name == "token":
                 self.last_token_response = dict(r["response_args"]) if "response_args" in r else None
             out = ep.do_response(request=pr, **r)
@@ -408,16 +430,24 @@ def run_flow(pair, scope, claims=None, extra_args=None, do_refresh=True, do_intr
     if claims:
         args["claims"] = claims
     args.update(extra_args or {})
-    url = stage("init_authorization", lambda: rp.init_authorization(req_args=args))
+    cst = rp.get_context().cstate
+    before = set(cst._db.keys())
+    beh = None
+    if c["transport"] in ("request", "request_uri"):
+        beh = {"request_param": c["transport"]}
+    url = stage("init_authorization", lambda: rp.init_authorization(req_args=args, behaviour_args=beh))
     obs["authz_url"] = url
     q = parse_qs(urlsplit(url).query)
     obs["authz_query_keys"] = sorted(q)
-    obs["state"] = (q.get("state") or [None])[0]
-    # what the RP recorded for this state
-    cst = rp.get_context().cstate
-    st = obs["state"]
-    if st is None:
-        raise FlowFailure("init_authorization", "no state in the authorization URL %s" % url[:200])
+    # the state the RP created for this request (a request object / pushed request keeps it out of the URL)
+    new = [k for k in cst._db.keys() if k not in before and "state" in (cst._db[k] or {})]
+    if len(new) != 1:
+        new = [k for k in cst._db.keys() if k not in before and (cst._db[k] or {}).get("state") == k]
+    if len(new) != 1:
+        raise FlowFailure("init_authorization", "cannot identify the RP state: %r" % (new,))
+    st = obs["state"] = new[0]
+    if "state" in q and q["state"][0] != st:
+        raise FlowFailure("init_authorization", "state in URL differs from the RP state")
     rp_req = cst.get(st)
     obs["rp_nonce"] = rp_req.get("nonce")
     obs["rp_scope"] = rp_req.get("scope")
